@@ -38,6 +38,10 @@ func SentinelMiddleware(opts ...Option) echo.MiddlewareFunc {
 			defer entry.Exit()
 
 			err = next(c)
+			if err != nil {
+				// the handler's error is visible here: record it on the entry like the other adapters do
+				sentinel.TraceError(entry, err)
+			}
 			return err
 		}
 
